@@ -2722,7 +2722,7 @@ class Tree:
             # NOTE in the ms format it's the *leaf* nodes we label not
             # necessarily the samples. We keep this behaviour to avoid
             # breaking legacy code that may depend on it.
-            node_labels = {u: f"{u + 1}" for u in self.leaves()}
+            node_labels = {u: f"{u + 1}" for u in self.leaves(root)}
         return text_formats.build_newick(
             self,
             root=root,
